@@ -763,7 +763,9 @@ Section Mono.
         destruct (dec_pairs d (N.to_nat n) rest) as [[l r']|] eqn:T; [|discriminate].
         rewrite (dec_pairs_mono _ _ _ T). intros H; exact H.
       + destruct (d rest) as [[w r']|] eqn:T; [|discriminate]. rewrite (Hext _ _ T). intros H; exact H.
-    - unfold dispatch. destruct m as [|[[[|]|[|]|]|[[|]|[|]|]|]]; try discriminate; lia.
+    - unfold dispatch. destruct m as [|p]; [lia|].
+      destruct p as [p|p|]; try (destruct p as [p|p|]); try (destruct p as [p|p|]);
+        try discriminate; lia.
   Qed.
 
   Lemma step_mono strict bs r : step d strict bs = Some r -> step d' strict bs = Some r.
@@ -846,3 +848,225 @@ Print Assumptions canonical_decode_reencode.
 Theorem canonical_encode v rest : wf v -> canonical (encode v ++ rest).
 Proof. intros Hwf. exists (depth v), (v, rest). apply decode_strict_encode; [exact Hwf|lia]. Qed.
 Print Assumptions canonical_encode.
+
+(** * Whatever is decoded from octets is well-formed, and decoding consumes input *)
+
+Lemma unbe_bound l : wf_bytes l -> unbe l < 256 ^ N.of_nat (length l).
+Proof.
+  induction l as [|b l IH] using rev_ind; intros H.
+  - unfold unbe. cbn. lia.
+  - apply wf_bytes_app in H as [Hl Hb]. inversion Hb as [|? ? Hb' _]; subst. unfold wf_byte in Hb'.
+    specialize (IH Hl). rewrite unbe_app, app_length. cbn [length].
+    replace (N.of_nat (length l + 1)) with (N.succ (N.of_nat (length l))) by lia.
+    rewrite N.pow_succ_r'. set (P := 256 ^ N.of_nat (length l)) in *. lia.
+Qed.
+
+Lemma info_width_vals i k : info_width i = Some k -> k = 1%nat \/ k = 2%nat \/ k = 4%nat \/ k = 8%nat.
+Proof.
+  unfold info_width.
+  destruct (i =? 24); [intros H; inversion H; tauto|]. destruct (i =? 25); [intros H; inversion H; tauto|].
+  destruct (i =? 26); [intros H; inversion H; tauto|]. destruct (i =? 27); [intros H; inversion H; tauto|].
+  discriminate.
+Qed.
+
+Lemma decode_head_wf bs m n c rest :
+  wf_bytes bs -> decode_head bs = Some (m, n, c, rest) ->
+  n < two64 /\ wf_bytes rest /\ (c = 1%nat -> n < 24) /\ (length rest < length bs)%nat.
+Proof.
+  intros Hwf. destruct bs as [|b tl]; [discriminate|]. unfold decode_head. cbv zeta.
+  inversion Hwf as [|? ? Hb Htl]; subst.
+  destruct (N.leb_spec 256 b) as [Hb'|Hb']; [discriminate|].
+  destruct (N.ltb_spec (b mod 32) 24) as [Hi|Hi].
+  { intros H. inversion H; subst. cbn [length]. repeat split; try assumption; lia. }
+  destruct (info_width (b mod 32)) as [k|] eqn:Ek; [|discriminate].
+  unfold take_be. destruct (Nat.ltb_spec (length tl) k) as [Hk|Hk]; [discriminate|].
+  intros H. inversion H; subst. clear H.
+  rewrite <- (firstn_skipn k tl) in Htl. apply wf_bytes_app in Htl as [Hf Hs].
+  pose proof (unbe_bound _ Hf) as Hu. rewrite firstn_length_le in Hu by exact Hk.
+  pose proof (info_width_vals _ _ Ek) as Hv.
+  repeat split.
+  - destruct Hv as [->|[->|[->| ->]]].
+    + change (256 ^ N.of_nat 1) with 256 in Hu. lia.
+    + change (256 ^ N.of_nat 2) with 65536 in Hu. lia.
+    + change (256 ^ N.of_nat 4) with 4294967296 in Hu. lia.
+    + change (256 ^ N.of_nat 8) with two64 in Hu. lia.
+  - exact Hs.
+  - intros Hc. lia.
+  - rewrite skipn_length. cbn [length]. lia.
+Qed.
+
+Lemma take_n_wf n bs s rest :
+  wf_bytes bs -> take_n n bs = Some (s, rest) ->
+  wf_bytes s /\ wf_bytes rest /\ (length rest <= length bs)%nat /\ N.of_nat (length s) = n.
+Proof.
+  intros Hwf H. apply take_n_inv in H as [-> Hn]. apply wf_bytes_app in Hwf as [Hs Hr].
+  rewrite app_length. repeat split; try assumption. lia.
+Qed.
+
+Lemma indef_start_inv bs tl : indef_start bs = Some tl -> bs = 159 :: tl.
+Proof.
+  destruct bs as [|b t]; [discriminate|]. cbn [indef_start].
+  destruct (N.eqb_spec b 159) as [->|_]; [|discriminate]. intros H. inversion H; subst. reflexivity.
+Qed.
+
+Definition good (bs : bytes) : Prop := wf_bytes bs /\ N.of_nat (length bs) < two64.
+
+Section DecWf.
+  Variable dec : bytes -> option (cbor * bytes).
+  Hypothesis Hdec : forall bs v rest, good bs -> dec bs = Some (v, rest) ->
+    wf v /\ wf_bytes rest /\ (length rest < length bs)%nat.
+
+  Lemma good_shrink bs rest : good bs -> wf_bytes rest -> (length rest <= length bs)%nat -> good rest.
+  Proof. intros [_ Hl] Hr Hle. split; [exact Hr|lia]. Qed.
+
+  Lemma dec_items_wf : forall n bs l rest, good bs -> dec_items dec n bs = Some (l, rest) ->
+    Forall wf l /\ wf_bytes rest /\ (length l + length rest <= length bs)%nat /\ length l = n.
+  Proof.
+    induction n as [|n IH]; intros bs l rest Hg H; cbn [dec_items] in H.
+    - inversion H; subst. destruct Hg as [Hw _]. cbn [length]. repeat split; [constructor|exact Hw|lia].
+    - destruct (dec bs) as [[v r]|] eqn:E; [|discriminate].
+      destruct (dec_items dec n r) as [[l' r']|] eqn:E2; [|discriminate].
+      inversion H; subst. clear H.
+      apply (Hdec _ _ _ Hg) in E as (Hv & Hr & Hlt).
+      apply IH in E2 as (Hl & Hr' & Hlen & Hn); [|apply (good_shrink bs); [exact Hg|exact Hr|lia]].
+      cbn [length]. repeat split; [constructor; assumption|exact Hr'|lia|lia].
+  Qed.
+
+  Lemma dec_pairs_wf : forall n bs l rest, good bs -> dec_pairs dec n bs = Some (l, rest) ->
+    Forall (fun kv => wf (fst kv) /\ wf (snd kv)) l /\ wf_bytes rest /\
+    (length l + length rest <= length bs)%nat /\ length l = n.
+  Proof.
+    induction n as [|n IH]; intros bs l rest Hg H; cbn [dec_pairs] in H.
+    - inversion H; subst. destruct Hg as [Hw _]. cbn [length]. repeat split; [constructor|exact Hw|lia].
+    - destruct (dec bs) as [[k r]|] eqn:E; [|discriminate].
+      destruct (dec r) as [[w r1]|] eqn:E1; [|discriminate].
+      destruct (dec_pairs dec n r1) as [[l' r']|] eqn:E2; [|discriminate].
+      inversion H; subst. clear H.
+      apply (Hdec _ _ _ Hg) in E as (Hk & Hr & Hlt).
+      assert (Hg1 : good r) by (apply (good_shrink bs); [exact Hg|exact Hr|lia]).
+      apply (Hdec _ _ _ Hg1) in E1 as (Hw & Hr1 & Hlt1).
+      apply IH in E2 as (Hl & Hr' & Hlen & Hn); [|apply (good_shrink bs); [exact Hg|exact Hr1|lia]].
+      cbn [length]. repeat split; [constructor; [cbn [fst snd]; split; assumption|exact Hl]|exact Hr'|lia|lia].
+  Qed.
+
+  Lemma dec_until_break_wf : forall cnt bs l rest, good bs -> dec_until_break dec cnt bs = Some (l, rest) ->
+    Forall wf l /\ wf_bytes rest /\ (length l + length rest < length bs)%nat.
+  Proof.
+    induction cnt as [|cnt IH]; intros bs l rest Hg H; cbn [dec_until_break] in H; [discriminate|].
+    destruct bs as [|b tl]; [discriminate|].
+    destruct (b =? 255).
+    - inversion H; subst. destruct Hg as [Hw _]. inversion Hw; subst. cbn [length].
+      repeat split; [constructor|assumption|lia].
+    - destruct (dec (b :: tl)) as [[v r]|] eqn:E; [|discriminate].
+      destruct (dec_until_break dec cnt r) as [[l' r']|] eqn:E2; [|discriminate].
+      inversion H; subst. clear H.
+      apply (Hdec _ _ _ Hg) in E as (Hv & Hr & Hlt).
+      apply IH in E2 as (Hl & Hr' & Hlen); [|apply (good_shrink (b :: tl)); [exact Hg|exact Hr|lia]].
+      cbn [length] in *. repeat split; [constructor; assumption|exact Hr'|lia].
+  Qed.
+
+  Lemma dec_seq_wf : forall cnt bs l, good bs -> dec_seq dec cnt bs = Some l -> Forall wf l.
+  Proof.
+    induction cnt as [|cnt IH]; intros bs l Hg H; destruct bs as [|b tl]; cbn [dec_seq] in H;
+      try discriminate; try (inversion H; subst; constructor).
+    destruct (dec (b :: tl)) as [[v r]|] eqn:E; [|discriminate].
+    destruct (dec_seq dec cnt r) as [l'|] eqn:E2; [|discriminate].
+    inversion H; subst. clear H.
+    apply (Hdec _ _ _ Hg) in E as (Hv & Hr & Hlt).
+    apply IH in E2; [|apply (good_shrink (b :: tl)); [exact Hg|exact Hr|lia]].
+    constructor; assumption.
+  Qed.
+
+  Lemma step_wf strict bs v rest : good bs -> step dec strict bs = Some (v, rest) ->
+    wf v /\ wf_bytes rest /\ (length rest < length bs)%nat.
+  Proof.
+    intros Hg. unfold step. destruct (if strict then None else indef_start bs) as [tl|] eqn:Ei.
+    - destruct strict; [discriminate|]. apply indef_start_inv in Ei. subst bs.
+      destruct (dec_until_break dec (length tl) tl) as [[l r]|] eqn:T; [|discriminate].
+      intros H. inversion H; subst. clear H.
+      assert (Hgt : good tl).
+      { destruct Hg as [Hw Hl]. inversion Hw; subst. cbn [length] in Hl. split; [assumption|lia]. }
+      apply (dec_until_break_wf _ _ _ _ Hgt) in T as (Hl & Hr & Hlen).
+      destruct Hgt as [_ Hb]. cbn [length].
+      split; [apply wf_CArr; split; [lia|exact Hl] | split; [exact Hr | lia]].
+    - clear Ei. destruct (decode_head bs) as [[[[m n] c] r]|] eqn:Eh; [|discriminate].
+      destruct (head_okb strict bs m n c); [|discriminate].
+      pose proof (decode_head_inv _ _ _ _ _ Eh) as [_ Hm].
+      destruct (decode_head_wf _ _ _ _ _ (proj1 Hg) Eh) as (Hn & Hr & Hc & Hlt).
+      assert (Hgr : good r) by (apply (good_shrink bs); [exact Hg|exact Hr|lia]).
+      intros H.
+      destruct (major_cases m Hm) as [->|[->|[->|[->|[->|[->|[->| ->]]]]]]]; unfold dispatch in H.
+      + inversion H; subst. repeat split; assumption.
+      + inversion H; subst. repeat split; assumption.
+      + destruct (take_n n r) as [[s r']|] eqn:T; [|discriminate]. inversion H; subst. clear H.
+        apply (take_n_wf _ _ _ _ Hr) in T as (Hs & Hr' & Hle & Hlen).
+        cbn [wf]. rewrite Hlen. repeat split; try assumption. lia.
+      + destruct (take_n n r) as [[s r']|] eqn:T; [|discriminate]. inversion H; subst. clear H.
+        apply (take_n_wf _ _ _ _ Hr) in T as (Hs & Hr' & Hle & Hlen).
+        cbn [wf]. rewrite Hlen. repeat split; try assumption. lia.
+      + destruct (N.of_nat (length r) <? n); [discriminate|].
+        destruct (dec_items dec (N.to_nat n) r) as [[l r']|] eqn:T; [|discriminate].
+        inversion H; subst. clear H.
+        apply (dec_items_wf _ _ _ _ Hgr) in T as (Hl & Hr' & Hle & Hlen).
+        split; [apply wf_CArr; split; [lia|exact Hl] | split; [exact Hr' | lia]].
+      + destruct (N.of_nat (length r) <? 2 * n); [discriminate|].
+        destruct (dec_pairs dec (N.to_nat n) r) as [[l r']|] eqn:T; [|discriminate].
+        inversion H; subst. clear H.
+        apply (dec_pairs_wf _ _ _ _ Hgr) in T as (Hl & Hr' & Hle & Hlen).
+        split; [apply wf_CMap; split; [lia|exact Hl] | split; [exact Hr' | lia]].
+      + destruct (dec r) as [[w r']|] eqn:T; [|discriminate]. inversion H; subst. clear H.
+        apply (Hdec _ _ _ Hgr) in T as (Hw & Hr' & Hlt').
+        split; [apply wf_CTag; split; assumption | split; [exact Hr' | lia]].
+      + destruct (Nat.eqb_spec c 1) as [Hc1|Hc1]; [|discriminate]. inversion H; subst. clear H.
+        cbn [wf]. split; [apply Hc; reflexivity | split; [exact Hr | exact Hlt]].
+  Qed.
+End DecWf.
+
+(** Decoding octets (a buffer shorter than 2^64, which every real buffer is)
+    yields a well-formed item, leaves octets, and consumes at least one. *)
+Theorem decode_gen_wf strict : forall fuel bs v rest,
+  wf_bytes bs -> N.of_nat (length bs) < two64 ->
+  decode_gen strict fuel bs = Some (v, rest) ->
+  wf v /\ wf_bytes rest /\ (length rest < length bs)%nat.
+Proof.
+  induction fuel as [|f IH]; intros bs v rest Hw Hl H; [discriminate|].
+  rewrite decode_gen_S in H. apply (step_wf (decode_gen strict f)) in H; [exact H| |split; assumption].
+  intros bs' v' rest' [Hw' Hl'] H'. apply IH; assumption.
+Qed.
+Print Assumptions decode_gen_wf.
+
+Theorem decode_wf fuel bs v rest :
+  wf_bytes bs -> N.of_nat (length bs) < two64 -> decode fuel bs = Some (v, rest) ->
+  wf v /\ wf_bytes rest /\ (length rest < length bs)%nat.
+Proof. apply decode_gen_wf. Qed.
+Print Assumptions decode_wf.
+
+Theorem decode_seq_wf fuel bs l :
+  wf_bytes bs -> N.of_nat (length bs) < two64 -> decode_seq fuel bs = Some l -> Forall wf l.
+Proof.
+  intros Hw Hl. unfold decode_seq. apply dec_seq_wf; [|split; assumption].
+  intros bs' v' rest' [Hw' Hl'] H'. apply (decode_wf fuel); assumption.
+Qed.
+Print Assumptions decode_seq_wf.
+
+(** Consequently decoding is a left inverse of encoding on canonical octets
+    AND the decoded value can be fed back to every theorem above. *)
+Theorem decode_strict_roundtrip fuel bs v rest :
+  wf_bytes bs -> N.of_nat (length bs) < two64 -> decode_strict fuel bs = Some (v, rest) ->
+  wf v /\ bs = encode v ++ rest.
+Proof.
+  intros Hw Hl H. split; [|apply (decode_canonical_reencode fuel); exact H].
+  apply (decode_gen_wf true fuel bs v rest Hw Hl H).
+Qed.
+Print Assumptions decode_strict_roundtrip.
+
+Example decode_wf_nonvacuous :
+  let bs := encode_indef_arr [sample; CUint 7] ++ [9] in
+  wf_bytes bs /\ N.of_nat (length bs) < two64 /\ decode 4 bs = Some (CArr [sample; CUint 7], [9]).
+Proof. split; [apply wf_bytesb_spec; vm_compute; reflexivity | split; vm_compute; reflexivity]. Qed.
+
+(** Status: every theorem requested for this library is proved above with
+    [Qed] and is closed under the global context; nothing is left open.
+    Not covered by the model (see the header of [Lib/Cbor.v]): floats,
+    two-octet simple values, indefinite-length strings and maps, UTF-8
+    validation of text strings, and cbor2's canonical map-key sorting. *)
